@@ -133,3 +133,4 @@ def check(pc, goal, timeout_ms=10000, portfolio=True, want_model=False):
             if verdict == "sat":
                 return "sat", backend, time.time() - t0, None
     return "unknown", None, time.time() - t0, None
+
